@@ -160,7 +160,7 @@ PROPS["C19"] = dict(
     lean_props=["SeaQ.Props.C19", "SeaQ.Props.C19Snake"],
     lean_obligations=[],
     technique="Lean 4 proof that the derive's fast-path prepare() equals the general identifier quoting for every name satisfying must_be_valid_iden (any quote character that is not an identifier character), lifted to every variant of a type that takes the fast path, and of the rename / method / Table / snake_case decision; the predicate must_be_valid_iden is translated from sea-query-derive's source on every run (seaq-translate group derive); executable model of heck 0.4's case conversion compared with heck on generated identifiers; ~200 derived items expanded by /repo's macros at harness build time (one type per punctuation character) compared with the documented names and with the general quoting for the three backends' quotes and for every quote a custom backend may pass",
-    level_text="Machine-checked: for every name the derive deems a valid identifier the generated quoting fast path produces exactly the text of the general identifier quoting (which C04 proves decodes to the name), for every quote character that is not an identifier character (the three backends' among them); if a type takes the fast path, every variant's spelled name is valid and no variant is a method / flatten one; rename and method attributes override, `Table` spells the table name, anything else the snake_case of the identifier; and (Props/C19Snake) the snake_case of ANY string consists of `_` and lower-cased alphanumerics, starts with the lower-cased first letter when the identifier starts with a letter, hence always satisfies must_be_valid_iden: an attribute-free variant never disables the fast path (snake_valid, default_variant_valid). The snake_case / PascalCase conversion is an executable model of heck 0.4 checked against the real heck on 60k+ generated ASCII identifiers; the macro itself is exercised through types compiled against /repo (enums, unit structs, IdenStatic, enum_def with prefix / suffix / table_name, container and variant renames, flattened variants).",
+    level_text="Machine-checked: for every name the derive deems a valid identifier the generated quoting fast path produces exactly the text of the general identifier quoting (which C04 proves decodes to the name), for every quote character that is not an identifier character (the three backends' among them); if a type takes the fast path, every variant's spelled name is valid and no variant is a method / flatten one; rename and method attributes override, `Table` spells the table name, anything else the snake_case of the identifier; and (Props/C19Snake) the snake_case of ANY string consists of `_` and lower-cased alphanumerics, starts with the lower-cased first letter when the identifier starts with a letter, hence always satisfies must_be_valid_iden: an attribute-free variant never disables the fast path (snake_valid, default_variant_valid); it has no upper-case letter, no `_` at either end and no two in a row (snake_lower, snake_shape). The snake_case / PascalCase conversion is an executable model of heck 0.4 checked against the real heck on 60k+ generated ASCII identifiers; the macro itself is exercised through types compiled against /repo (enums, unit structs, IdenStatic, enum_def with prefix / suffix / table_name, container and variant renames, flattened variants).",
     level_note="Trusted: Lean kernel; rustc / proc-macro expansion; heck 0.4.1 as the meaning of 'snake_case' (ASCII identifiers; non-ASCII identifiers are outside the model); the static list of derived items in the harness (a naming pattern not in the list and not in the generated identifiers is not seen; the unit-struct format-string defect was repaired: fix 9be3e67). must_be_valid_iden is regenerated from the source by the translator (an expression outside its small Rust subset fails the check); the per-type combination (every variant valid, none method / flatten) is hand-modelled and seen through the derived items.",
     design_ref="§6 C19",
     scope="all names (fast path, decision logic); case conversion by model-vs-heck testing",
